@@ -31,8 +31,13 @@ const SM4_MODES: [&str; 4] = ["cbc", "cfb", "ofb", "ctr"];
 fn n_targets() -> usize {
     1 + 4 + 1 + 6 + 5 + 1 + 2 + 4 + 4 + 1 + 1 + 1 + 1
 }
-const SPECIALS: usize = 3 + crate::gen_c19::N_SEMANTIC + 1 + 1; // + SM9 identity-length sweep + long history
-const SOAK: usize = SPECIALS - 1;
+const C20_PAR: usize = 120;
+const SPECIALS: usize = 3 + crate::gen_c19::N_SEMANTIC + 1 + 1 + C20_PAR; // + SM9 identity-length sweep + long history + two-caller runs
+const SOAK: usize = SPECIALS - 1 - C20_PAR;
+
+pub fn isolated_c20(t: Tier, i: usize) -> bool {
+    i >= runs_c20(t) - C20_PAR && i % 2 == 0
+}
 const ID_SWEEP: usize = 3 + crate::gen_c19::N_SEMANTIC; // kdf, compute_za, termination, well-formed-but-odd documents
 
 fn samples(t: Tier) -> usize {
@@ -322,6 +327,98 @@ fn inputs_for(p: &mut Prng, t: &Target, tier: Tier) -> Vec<Vec<Value>> {
     v
 }
 
+/// Two callers at receive-side entry points at once (worker process of its own; simulated caller
+/// threads). One of the two inputs is now and then malformed; an entry point one caller has used
+/// before sits beside one that is new to the process (a hit beside a miss in whatever is memoised).
+fn two_callers(p: &mut Prng, w: &mut World, k: usize) {
+    let n = n_sm2();
+    let warm = p.chance(1, 2);
+    let damage = |p: &mut Prng, w: &mut World, slot: &str| {
+        if p.chance(1, 3) {
+            let len = w.slots.get(slot).map(|v| v.len()).unwrap_or(1).max(1);
+            match p.below(3) {
+                0 => w.exec(json!({"op":"fault","slot":slot,"kind":"truncate","len":p.range(0, len - 1)})),
+                1 => w.exec(json!({"op":"fault","slot":slot,"kind":"flip","bit":p.range(0, len * 8 - 1)})),
+                _ => w.exec(json!({"op":"fault","slot":slot,"kind":"extend","hex":"00"})),
+            };
+        }
+    };
+    let (a, b): (Value, Value) = match k % 4 {
+        0 => {
+            // public-key decoders, all six encodings
+            let mut ops = vec![];
+            // (the compressed forms - a square root per decoding - in half of the runs on both sides)
+            let both_compressed = p.chance(1, 2);
+            for pfx in ["pa", "pb"] {
+                let enc = if both_compressed { *p.pick(&["sec1c", "hexc"]) } else { *p.pick(&crate::gen_c19::PK_ENCS) };
+                w.exec(set(&format!("{pfx}.d"), &be32(&scalar_class(p, &n).0)));
+                w.exec(json!({"op":"sm2.derive_pk","impl":"ref","d":format!("{pfx}.d"),"pk":format!("{pfx}.pk"),"comp":false}));
+                w.exec(json!({"op":"doc.pk.write","impl":"ref","pk":format!("{pfx}.pk"),"enc":enc,"out":format!("{pfx}.doc")}));
+                ops.push(json!({"op":"doc.pk.read","impl":"lib","enc":enc,"doc":format!("{pfx}.doc")}));
+            }
+            (ops[0].clone(), ops[1].clone())
+        }
+        1 => {
+            // SM2 decryption, compressed C1 in half of the runs
+            let comp = p.chance(1, 2);
+            let mut ops = vec![];
+            for pfx in ["pa", "pb"] {
+                w.exec(set(&format!("{pfx}.d"), &be32(&scalar_class(p, &n).0)));
+                w.exec(json!({"op":"sm2.derive_pk","impl":"ref","d":format!("{pfx}.d"),"pk":format!("{pfx}.pk"),"comp":false}));
+                w.exec(set(&format!("{pfx}.msg"), &p.bytes(20)));
+                w.exec(json!({"op":"sm2.encrypt","impl":"ref","pk":format!("{pfx}.pk"),"msg":format!("{pfx}.msg"),"ct":format!("{pfx}.doc"),"order":"C1C3C2","comp":comp,"rng":rng_json(&uniform_script(p, 1))}));
+                ops.push(json!({"op":"sm2.decrypt","impl":"lib","d":format!("{pfx}.d"),"ct":format!("{pfx}.doc"),"order":"C1C3C2","comp":comp,"out":format!("{pfx}.pt")}));
+            }
+            (ops[0].clone(), ops[1].clone())
+        }
+        2 => {
+            // SM2 verification
+            let mut ops = vec![];
+            for pfx in ["pa", "pb"] {
+                w.exec(set(&format!("{pfx}.d"), &be32(&scalar_class(p, &n).0)));
+                w.exec(json!({"op":"sm2.derive_pk","impl":"ref","d":format!("{pfx}.d"),"pk":format!("{pfx}.pk"),"comp":p.chance(1, 2)}));
+                w.exec(set(&format!("{pfx}.msg"), &p.bytes(20)));
+                w.exec(json!({"op":"sm2.sign","impl":"ref","d":format!("{pfx}.d"),"id":Value::Null,"msg":format!("{pfx}.msg"),"sig":format!("{pfx}.doc"),"rng":rng_json(&uniform_script(p, 1))}));
+                ops.push(json!({"op":"sm2.verify","impl":"lib","pk":format!("{pfx}.pk"),"id":Value::Null,"msg":format!("{pfx}.msg"),"sig":format!("{pfx}.doc")}));
+            }
+            (ops[0].clone(), ops[1].clone())
+        }
+        _ => {
+            // SM9 verification: two identities under one master key, or two master keys
+            let order9 = rsm9::with(|s| s.n.clone());
+            let same_master = p.chance(1, 2);
+            let mut ops = vec![];
+            for pfx in ["pa", "pb"] {
+                if pfx == "pb" && same_master {
+                    w.exec(json!({"op":"copy","from":"pa.k","to":"pb.k"}));
+                    w.exec(json!({"op":"copy","from":"pa.pub","to":"pb.pub"}));
+                } else {
+                    w.exec(set(&format!("{pfx}.k"), &be32(&scalar_class(p, &order9).0)));
+                    w.exec(json!({"op":"sm9.master_pub","impl":"ref","kind":"sign","k":format!("{pfx}.k"),"pub":format!("{pfx}.pub")}));
+                }
+                w.exec(set(&format!("{pfx}.id"), &ascii(p, 6)));
+                w.exec(json!({"op":"sm9.extract","impl":"ref","kind":"sign","k":format!("{pfx}.k"),"pub":format!("{pfx}.pub"),"id":format!("{pfx}.id"),"out":format!("{pfx}.ds")}));
+                w.exec(set(&format!("{pfx}.msg"), &p.bytes(20)));
+                w.exec(json!({"op":"sm9.sign","impl":"ref","ds":format!("{pfx}.ds"),"ppubs":format!("{pfx}.pub"),"id":format!("{pfx}.id"),"msg":format!("{pfx}.msg"),"sig":format!("{pfx}.doc"),"rng":rng_json(&uniform_script(p, 1))}));
+                ops.push(json!({"op":"sm9.verify","impl":"lib","ppubs":format!("{pfx}.pub"),"id":format!("{pfx}.id"),"msg":format!("{pfx}.msg"),"sig":format!("{pfx}.doc"),"ref_on_reject":false}));
+            }
+            (ops[0].clone(), ops[1].clone())
+        }
+    };
+    if !(w.slots.contains_key("pa.doc") && w.slots.contains_key("pb.doc")) {
+        return;
+    }
+    if warm {
+        w.exec(a.clone());
+    }
+    damage(p, w, "pb.doc");
+    for _ in 0..3 {
+        w.exec(par(a.clone(), b.clone(), &par_order(p)));
+        w.exec(par(b.clone(), a.clone(), &par_order(p)));
+    }
+    w.bump("history.two-callers-at-entry-points");
+}
+
 pub fn run_c20(p: &mut Prng, tier: Tier, i: usize, sink: &mut Sink) {
     let nt = n_targets() * samples(tier);
     if i < nt * CHUNKS {
@@ -411,6 +508,9 @@ pub fn run_c20(p: &mut Prng, tier: Tier, i: usize, sink: &mut Sink) {
                 }
             }
             w.bump("history.sm9-identity-sweep");
+        }
+        x if x > SOAK => {
+            two_callers(p, &mut w, x - SOAK - 1);
         }
         x if x == SOAK => {
             // a long history in one process: more distinct (identity, key) pairs than any table or
